@@ -103,7 +103,7 @@ def histories(ctx, nconf, reps):
             Q = np.vstack([X[rs.choice(n, 20, replace=False)], make_data(rs, "gauss" if kind != "lattice" else "lattice", 10, dim),
                            np.zeros((2, dim), dtype=np.float32)])
             F = make_data(rs, kind if kind != "sparse" else "gauss", 150, dim)
-        kw = dict(metric=metric, n_neighbors=rng.choice([8, 12]), random_state=rng.randrange(10 ** 4), n_jobs=rng.choice([2, 4, 8, 16]),
+        kw = dict(metric=metric, n_neighbors=rng.choice([8, 12]), random_state=rng.randrange(10 ** 4), n_jobs=rng.choice([2, 3, 4, 6, 8, 16]),
                   low_memory=rng.choice([True, False]), diversify_prob=rng.choice([1.0, 1.0, 0.5]), tree_init=rng.choice([True, True, False]))
         desc = dict(data=kind, n=n, dim=dim, kwargs=kw, update=not sparse)
         ctx.crumb(dict(stream="histories", config=desc))
